@@ -43,6 +43,9 @@ def cases(draw, exhaustive=False):
         "route": draw(st.sampled_from(["gene", "gene", "kmg_obj", "kmg_id", "kmg_index", "kmg_split"])),
         "context": draw(st.booleans()),
         "rxn_ko": draw(st.one_of(st.none(), st.integers(0, 20))),
+        "pre": draw(st.sampled_from([0, 0, 1, 2])),
+        "again": draw(st.booleans()),
+        "nested": draw(st.sampled_from([False, False, True])),
         "exhaustive": exhaustive,
     }
 
@@ -74,19 +77,43 @@ def run_order(case, order, ctx, classes):
     spec = case["spec"]
     build.reset_globals()
     model = build.build_model(spec, case["path"])
-    before = observe.snapshot(model)
     route = case["route"]
     rxn_ko = None
     cm = model if case["context"] else None
+    knocked = []
+    # knock-outs that happen before the context is entered stay in force after it is left; a gene may be knocked out
+    # again inside (already non-functional), and contexts may nest
+    pre_n = min(case.get("pre", 0), len(order)) if cm is not None else 0
+    pre, order = list(order[:pre_n]), list(order[pre_n:])
+    for gid in pre:
+        model.genes.get_by_id(gid).knock_out()
+        knocked.append(gid)
+        verify_state(model, spec, knocked, None, "gene.knock_out")
+    if pre and case.get("again"):
+        order = order + pre[:1]
+        classes.add("~knocked-out-again-inside")
+    if pre:
+        classes.add("~pre-context-knock-outs")
+    before = observe.snapshot(model)
+    depth = 0
     if cm is not None:
         cm.__enter__()
+        depth = 1
+        if case.get("nested"):
+            cm.__enter__()
+            depth = 2
+            classes.add("~nested-context")
     try:
-        knocked = []
         if route == "gene":
             for gid in order:
                 model.genes.get_by_id(gid).knock_out()
                 knocked.append(gid)
                 verify_state(model, spec, knocked, None, "gene.knock_out")
+                if depth == 2 and gid == order[len(order) // 2]:
+                    cm.__exit__(None, None, None)  # leave the inner context half way: everything done so far is undone
+                    depth = 1
+                    verify_state(model, spec, pre, None, "inner-context-exit")
+                    knocked = list(pre)
         else:
             chunks = [order] if route != "kmg_split" else [order[: len(order) // 2], order[len(order) // 2:]]
             for chunk in chunks:
@@ -111,12 +138,14 @@ def run_order(case, order, ctx, classes):
             verify_state(model, spec, knocked, rxn_ko, "reaction.knock_out")
             classes.add("~reaction-knock-out")
     finally:
-        if cm is not None:
+        while cm is not None and depth:
             cm.__exit__(None, None, None)
+            depth -= 1
     if cm is not None:
         d = observe.diff(before, observe.snapshot(model), limit=4)
         if d:
-            _bad("context:not-restored", f"after the context the knock-outs of {order} ({route}) left: {d}")
+            _bad("context:not-restored", f"after the context the knock-outs of {order} ({route}; {pre} knocked out before entering) left: {d}")
+        verify_state(model, spec, pre, None, "after-context")
     return set(order)
 
 
